@@ -30,6 +30,9 @@ type Engine struct {
 
 	constGlobals  map[*ssa.Global]bool
 	storedGlobals map[*ssa.Global]bool
+	actorChecked  bool // effects.go
+	actorBad      []string
+	recCalls      map[string]bool // effects.go: functions whose calls are recorded for lastcall()
 }
 
 func relPkg(path string) string {
@@ -175,6 +178,18 @@ func Load(repo, verif string, pkgPaths []string) (*Engine, error) {
 		fs, _ := filepath.Glob(filepath.Join(repo, k, "verif_contracts*.go"))
 		sort.Strings(fs)
 		for _, f := range fs {
+			if only := os.Getenv("VERIF_ONLY"); only != "" {
+				// development aid: restrict to contract files whose path contains one of the given substrings
+				keep := false
+				for _, sub := range strings.Split(only, ",") {
+					if strings.Contains(f, sub) {
+						keep = true
+					}
+				}
+				if !keep {
+					continue
+				}
+			}
 			if err := e.CS.LoadFile(f, k); err != nil {
 				return nil, err
 			}
@@ -274,6 +289,15 @@ func (e *Engine) resolveType(name, defPkg string) (types.Type, error) {
 	pkg, tn := defPkg, name
 	if i := strings.LastIndex(name, "."); i >= 0 {
 		pkg, tn = name[:i], name[i+1:]
+	}
+	if !strings.Contains(name, ".") {
+		// predeclared types (int, rune, string, ...) — w-c12
+		if obj, isT := types.Universe.Lookup(tn).(*types.TypeName); isT && obj != nil {
+			if star {
+				return types.NewPointer(obj.Type()), nil
+			}
+			return obj.Type(), nil
+		}
 	}
 	sp, ok := e.Pkgs[pkg]
 	if !ok {
